@@ -542,6 +542,13 @@ func (c *c11Case) timeTravel(o c11Out) *Violation {
 				}
 			}
 			for _, u := range us {
+				if u.Index >= len(p.refs) {
+					return &Violation{Signature: "update-index-out-of-range", Text: fmt.Sprintf("parent version %d: update %+v", i+1, u)}
+				}
+				// only where the child's history is consistent at the parent's commit is anything claimed
+				if cur, ok := currentAt(p.refs[u.Index].fid, p.commit); !ok || !cur.vis {
+					continue
+				}
 				if u.Timestamp.Unix() <= p.commit || (i+1 < len(c.ps) && u.Timestamp.Unix() > c.ps[i+1].commit) {
 					return &Violation{Signature: "update-outside-window", Text: fmt.Sprintf("parent version %d (commit %d, next commit %v): update %+v is stamped at or before this version's commit or after the next version's commit", i+1, p.commit, end+c.thr, u)}
 				}
